@@ -120,6 +120,14 @@ def prepare_unit(name, scratch, with_twins=True, mutate=None, unit=None):
         f.write(text)
     ur.fn_index = _fn_index(text)
     ur.assumptions = V.scan_assumptions(text)
+    # every `assume(` of a unit must carry the id of a recorded known finding
+    kf_ids = {f['id'] for f in load_known_findings().get('findings', [])}
+    for ln in text.split('\n'):
+        code = ln.split('//')[0]
+        if re.search(r'(?<![\w_])assume\s*\(', code):
+            m = re.search(r'//\s*KF:([\w\-]+)', ln)
+            if not m or m.group(1) not in kf_ids:
+                raise Undecided('`assume` without a recorded known finding: %s' % ln.strip()[:200])
     return ur
 
 
@@ -142,6 +150,7 @@ def run_unit(name, scratch, mutate=None, quiet=False):
     rounds = 0
     while res.fatal and rounds < 6:
         missing = set(re.findall(r"no method named `(\w+)` found for (?:struct|enum|reference) `&?(?:mut )?(\w+)", res.fatal))
+        missing |= {(m, t.split('::')[-1]) for m, t in re.findall(r"the method `(\w+)` exists for (?:mutable )?reference `&(?:mut )?([\w:]+)", res.fatal)}
         missing |= {(m, None) for m in re.findall(r"cannot find function `(\w+)` in this scope", res.fatal)}
         missing |= {(m, t) for t, m in re.findall(r"no function or associated item named `(\w+)` found for (?:struct|enum) `(\w+)`", res.fatal)}
         added = False
